@@ -7,7 +7,7 @@ from ..harness import scn, gen, obs as O, pyeval, impl
 from . import base_scn
 
 pid = 'C06'
-gen_modules = ['tr_state', 'tr_validators', 'tr_has_patcher', 'tr_contracts', 'tr_decorators', 'tr_pin_contracts', 'tr_rest_validators', 'tr_rest_patcher', 'tr_rest_state']
+gen_modules = ['tr_state', 'tr_validators', 'tr_has_patcher', 'tr_contracts', 'tr_decorators', 'tr_pin_contracts', 'tr_rest_validators', 'tr_rest_patcher', 'tr_rest_state', 'tr_rest_contractsconst']
 model_targets = ['Sem/Scenario.v']
 hand_modelled = ['functools.update_wrapper / inspect metadata: not modelled (checked on the implementation by the monitor)']
 explanation = ('Theorems: with contracts disabled the generated wrappers are the original call; with every validator accepting, the sync/async '
